@@ -40,6 +40,7 @@ type Layout struct {
 	Mains   []*File
 	Secrets map[string]string
 	Sents   map[string]string // go.mod path -> content
+	Twins   []string          // extension-less files next to x.arrai files (never the right target)
 }
 
 // Dir is the directory of f.
@@ -102,6 +103,37 @@ func Gen(t *tape.Tape, base string, o Opts) *Layout {
 		}
 		f.Content = f.render()
 		l.Files = append(l.Files, f)
+	}
+	// extension-less twins: `//{./x}` means x.arrai even when a file called just `x` sits next to it
+	for _, f := range append([]*File(nil), l.Files...) {
+		if f.Kind == "arrai" && t.Bool(1, 5) {
+			l.Twins = append(l.Twins, strings.TrimSuffix(f.Path, ".arrai"))
+		}
+	}
+	// a nested module whose files sit directly in its root and use module-rooted imports, reached from a file
+	// of the outer module: the two roots must be told apart whichever directory is resolved first
+	if _, nested := l.Sents[l.Top+"/inner/go.mod"]; nested && t.Bool(2, 3) {
+		leaf := &File{Path: l.Top + "/inner/nleaf.arrai", Kind: "arrai", Tag: "inner/nleaf#n"}
+		leaf.ModRoot = l.modRootOf(leaf.Dir())
+		leaf.Content = leaf.render()
+		mid := &File{Path: l.Top + "/inner/nmid.arrai", Kind: "arrai", Tag: "inner/nmid#n"}
+		mid.ModRoot = l.modRootOf(mid.Dir())
+		mid.Imports = []*Imp{{Target: leaf, Spelling: "{/nleaf}", Rooted: true}}
+		mid.Content = mid.render()
+		top := &File{Path: l.Top + "/ntop.arrai", Kind: "arrai", Tag: "ntop#n"}
+		top.ModRoot = l.modRootOf(top.Dir())
+		top.Imports = []*Imp{{Target: mid, Spelling: "{./inner/nmid}"}}
+		if len(l.Files) > 0 && t.Bool(1, 2) {
+			// an outer rooted import first, so that the outer root is already cached
+			for _, f := range l.Files {
+				if f.Kind == "arrai" && f.ModRoot == top.ModRoot && strings.HasPrefix(f.Path, top.ModRoot+"/") {
+					top.Imports = append([]*Imp{{Target: f, Spelling: "{/" + strings.TrimSuffix(strings.TrimPrefix(f.Path, top.ModRoot+"/"), ".arrai") + "}", Rooted: true}}, top.Imports...)
+					break
+				}
+			}
+		}
+		top.Content = top.render()
+		l.Files = append(l.Files, leaf, mid, top)
 	}
 	// mains: arrai files, preferring late ones (they import the most)
 	var arrai []*File
@@ -234,6 +266,22 @@ func (l *Layout) Install(fs *simfs.FS) {
 	}
 	for p, c := range l.Sents {
 		fs.Put(p, c)
+	}
+	for _, p := range l.Twins {
+		isDir := false
+		for _, f := range l.Files {
+			if strings.HasPrefix(f.Path, p+"/") {
+				isDir = true // the name is taken by a directory
+			}
+		}
+		for sp := range l.Sents {
+			if strings.HasPrefix(sp, p+"/") {
+				isDir = true
+			}
+		}
+		if !isDir {
+			fs.Put(p, `"EXTENSIONLESS-TWIN"`)
+		}
 	}
 	for p, c := range l.Secrets {
 		fs.Put(p, c)
